@@ -123,6 +123,7 @@ void pre(int kind, const void* addr);
 void post(bool changed);
 void wrote();
 void plain_access(const void* a, bool wr);
+void trace_note(const char* fmt, ...);
 void block(int st, uintptr_t obj);
 void wake_where(int st, uintptr_t obj, bool samehost);
 uint64_t rnd_sched();
